@@ -22,6 +22,7 @@ use std::sync::atomic::Ordering;
 use std::sync::Mutex;
 use vx_kit::{Check, Local};
 
+/// default number of indices run by one forked child (a family may ask for more: `--block`)
 pub const FLUSH_EVERY: u64 = 256;
 /// per-case budget in CPU time of the process (independent of the load of the machine) ...
 pub const CASE_BUDGET_MS: u64 = 5_000;
@@ -162,10 +163,15 @@ pub fn worker_main(args: &[String], resolve: &dyn Fn(&str) -> Option<(&'static s
         std::process::exit(2)
     });
     let mut cx = Ctx::new(name, thorough);
+    let mut block = FLUSH_EVERY;
     let mut i = 5;
     while i < args.len() {
         match args[i].as_str() {
             "--probe" => cx.probe = true,
+            "--block" => {
+                block = args[i + 1].parse().unwrap_or(FLUSH_EVERY).max(1);
+                i += 1;
+            }
             "--only" => {
                 cx.only = Some(args[i + 1].clone());
                 i += 1;
@@ -192,7 +198,7 @@ pub fn worker_main(args: &[String], resolve: &dyn Fn(&str) -> Option<(&'static s
     let mut a = lo;
     let mut deaths_in_a_row = 0;
     while a < hi {
-        let b = (a + FLUSH_EVERY).min(hi);
+        let b = (a + block).min(hi);
         match run_block_in_child(&mut cx, run, a, b, &out, &prog_path, all_probe) {
             None => {
                 a = b;
@@ -310,6 +316,8 @@ pub struct Job {
     pub lo: u64,
     pub hi: u64,
     pub probe: bool,
+    /// indices per forked child
+    pub block: u64,
 }
 
 struct WorkerResult {
@@ -349,6 +357,7 @@ impl<'a> Pool<'a> {
         if job.probe {
             cmd.arg("--probe");
         }
+        cmd.arg("--block").arg(job.block.to_string());
         if let Some(o) = &self.only {
             cmd.arg("--only").arg(o);
         }
@@ -430,12 +439,12 @@ impl<'a> Pool<'a> {
                                         let mut q = queue.lock().unwrap();
                                         // redo what was not flushed before the culprit, continue after it, isolate it
                                         if idx + 1 < job.hi {
-                                            q.push(Job { family: job.family, lo: idx + 1, hi: job.hi, probe: false });
+                                            q.push(Job { family: job.family, lo: idx + 1, hi: job.hi, probe: false, block: job.block });
                                         }
                                         if upto < idx {
-                                            q.push(Job { family: job.family, lo: upto, hi: idx, probe: false });
+                                            q.push(Job { family: job.family, lo: upto, hi: idx, probe: false, block: job.block });
                                         }
-                                        q.push(Job { family: job.family, lo: idx, hi: idx + 1, probe: true });
+                                        q.push(Job { family: job.family, lo: idx, hi: idx + 1, probe: true, block: 1 });
                                     }
                                     _ => {
                                         self.check.machinery_error(&format!("worker for {}[{}..{}) died ({how}) outside a case: {short}", job.family, job.lo, job.hi));
@@ -504,12 +513,12 @@ pub fn merge_lines(check: &Check, l: &mut Local, lines: &[Value]) -> u64 {
 }
 
 /// Split 0..n into jobs of `chunk` indices.
-pub fn jobs_for(family: &'static str, n: u64, chunk: u64) -> Vec<Job> {
+pub fn jobs_for(family: &'static str, n: u64, chunk: u64, block: u64) -> Vec<Job> {
     let mut v = vec![];
     let mut lo = 0;
     while lo < n {
         let hi = (lo + chunk).min(n);
-        v.push(Job { family, lo, hi, probe: false });
+        v.push(Job { family, lo, hi, probe: false, block });
         lo = hi;
     }
     v
